@@ -21,6 +21,8 @@ using namespace mc;
 typedef unsigned __int128 u128;
 typedef HWAddress<6> HW6;
 typedef HWAddress<2> HW2;
+typedef HWAddress<3> HW3;
+typedef HWAddress<8> HW8;
 
 static bool g_reduced = false;
 static bool g_replaying = false;
@@ -116,6 +118,12 @@ template <> struct Tr<HW6> : TrHW<6> {
 template <> struct Tr<HW2> : TrHW<2> {
     static const char* name() { return "hw2"; }
 };
+template <> struct Tr<HW3> : TrHW<3> {
+    static const char* name() { return "hw3"; }
+};
+template <> struct Tr<HW8> : TrHW<8> {
+    static const char* name() { return "hw8"; }
+};
 
 // ---------------------------------------------------------------- reference acceptors
 enum Cls { INVALID = 0, VALID = 1, UNSPEC = 2 };
@@ -204,8 +212,12 @@ static Cls ref6(const std::string& s, u128& val, const char*& tag) {
 // Hardware address of n bytes, "00:01:da:fa:..." (hw_address.h).  VALID: k <= n groups of exactly two hex digits
 // separated by single colons (k < n: zero padded — fixed by the repository's own ShortStringConstructor test).
 // INVALID: a character that is neither a hex digit nor ':', a group of three or more digits, more than n groups.
-// UNSPEC (not compared): the empty string, groups of zero or one digit (the parser is lenient on purpose: it treats ':' as
-// a group terminator), leading / trailing colon.
+// UNSPEC (acceptance not compared): the empty string, groups of zero or one digit (the parser is lenient on purpose: it treats
+// ':' as a group terminator), leading / trailing colon.  libtins' accepted language there is odd but consistent (a one-digit
+// group must be followed by ':', so "1:2:3:4:5:6" is rejected while "1:2:3:4:5:06" and "1:2:3:4:5:6:" are accepted) and the
+// statement does not forbid it, so accept/reject stays unjudged; but WHEN such a text is accepted its VALUE is judged against
+// the reference parser: group k (0..2 hex digits, empty = 0) is byte k, missing groups are zero, one trailing ':' adds nothing.
+static bool g_ref_value_known = false;     // set by the classifiers: `val` is the reference value of the text (VALID, or UNSPEC hw text)
 static Cls refhw(const std::string& s, size_t n, u128& val, const char*& tag) {
     std::vector<std::string> g;
     size_t i = 0;
@@ -224,7 +236,15 @@ static Cls refhw(const std::string& s, size_t n, u128& val, const char*& tag) {
     for (auto& x : g) { if (x.size() >= 3) longgroup = true; if (x.size() != 2) all2 = false; }
     if (foreign) { tag = tail ? "garbage-after-complete-address" : "foreign-character"; return INVALID; }
     if (longgroup) { tag = tail ? "garbage-after-complete-address" : "group-of-3-or-more-digits"; return INVALID; }
-    if (!all2) { tag = "short-group"; return UNSPEC; }
+    if (!all2) {
+        tag = "short-group";
+        if (g.size() <= n || (g.size() == n + 1 && g[n].empty())) {
+            val = 0;
+            for (size_t k = 0; k < n; ++k) { u128 b = 0; if (k < g.size()) for (char c : g[k]) b = (b << 4) | (u128)hexv(c); val = (val << 8) | b; }
+            g_ref_value_known = true;
+        }
+        return UNSPEC;
+    }
     if (g.size() > n) { tag = "more-groups-than-address-size"; return INVALID; }
     val = 0;
     for (size_t k = 0; k < n; ++k) val = (val << 8) | (k < g.size() ? (u128)(hexv(g[k][0]) << 4 | hexv(g[k][1])) : 0);
@@ -236,15 +256,23 @@ template <> Cls ref_classify<IPv4Address>(const std::string& s, u128& v, const c
 template <> Cls ref_classify<IPv6Address>(const std::string& s, u128& v, const char*& tag) { return ref6(s, v, tag); }
 template <> Cls ref_classify<HW6>(const std::string& s, u128& v, const char*& tag) { return refhw(s, 6, v, tag); }
 template <> Cls ref_classify<HW2>(const std::string& s, u128& v, const char*& tag) { return refhw(s, 2, v, tag); }
+template <> Cls ref_classify<HW3>(const std::string& s, u128& v, const char*& tag) { return refhw(s, 3, v, tag); }
+template <> Cls ref_classify<HW8>(const std::string& s, u128& v, const char*& tag) { return refhw(s, 8, v, tag); }
 
 // ---------------------------------------------------------------- part str: one string against the reference acceptor
-struct StrStats { uint64_t total = 0, acc = 0, rej = 0, unspec = 0, other_exc = 0; };
+struct StrStats { uint64_t total = 0, acc = 0, rej = 0, unspec = 0, other_exc = 0, unspec_value = 0, valcmp = 0; };
 template <class A> static void check_string(const std::string& s, StrStats& st) {
     typedef Tr<A> T;
     u128 want = 0; const char* tag = "";
+    g_ref_value_known = false;
     Cls c = ref_classify<A>(s, want, tag);
-    bool acc = false; u128 got = 0; int exc = 0;
-    try { A a = T::parse(s); acc = true; got = T::num(a); }
+    if (c == VALID) g_ref_value_known = true;
+    bool acc = false; u128 got = 0; int exc = 0; int rt = 0; std::string own;
+    try {
+        A a = T::parse(s); acc = true; got = T::num(a);
+        // the accepted value must survive its own text form
+        try { own = a.to_string(); A b = T::parse(own); rt = (b == a && T::num(b) == got) ? 0 : 1; } catch (std::exception&) { rt = 2; }
+    }
     catch (invalid_address&) { exc = 1; }
     catch (std::exception&) { exc = 2; }
     catch (...) { exc = 3; }
@@ -254,8 +282,19 @@ template <class A> static void check_string(const std::string& s, StrStats& st) 
     auto kase = [&]() { return std::string("part=str fam=") + T::name() + " s=" + shex(s); };
     if (Mon::errors) san_check(kase);
     if (exc == 3) viol(std::string("reject:") + T::name() + ":non-std-exception", "parsing threw something that is not a std::exception", kase());
-    if (c == UNSPEC) { ++st.unspec; return; }
+    if (acc && rt) viol(std::string("text:") + T::name() + (rt == 1 ? ":accepted-value-own-text-parses-to-other-address" : ":accepted-value-own-text-rejected"),
+                        "text " + jstr(s) + " parsed as " + hx(got, T::bits) + "; its to_string() " + jstr(own) + (rt == 1 ? " parses to another address" : " is rejected"), kase());
+    if (c == UNSPEC) {
+        ++st.unspec;
+        if (acc && g_ref_value_known) {
+            ++st.unspec_value; ++st.valcmp;
+            if (got != want) viol(std::string("parse:") + T::name() + ":wrong-value:" + tag, "text " + jstr(s) + " parsed as " + hx(got, T::bits) + ", reference parser " + hx(want, T::bits), kase());
+            else dist_nontrivial(std::string(T::name()) + "|" + s);
+        }
+        return;
+    }
     if (c == VALID) {
+        if (acc) ++st.valcmp;
         if (!acc) viol(std::string("parse:") + T::name() + ":rejects-valid:" + tag, "valid address text " + jstr(s) + " was rejected", kase());
         else if (got != want) viol(std::string("parse:") + T::name() + ":wrong-value:" + tag, "text " + jstr(s) + " parsed as " + hx(got, T::bits) + ", reference " + hx(want, T::bits), kase());
         else dist_nontrivial(std::string(T::name()) + "|" + s);
@@ -267,6 +306,8 @@ static void flush_stats(const char* fam, const StrStats& st) {
     std::string f = fam;
     R.count("strings_" + f, st.total); R.count("strings_" + f + "_accepted", st.acc); R.count("strings_" + f + "_rejected", st.rej);
     R.count("strings_" + f + "_unspecified_not_compared", st.unspec);
+    if (st.unspec_value) R.count("strings_" + f + "_unspecified_acceptance_but_value_compared", st.unspec_value);
+    R.count("accepted_values_compared_with_reference_parser", st.valcmp);
     if (st.other_exc) R.count("strings_" + f + "_rejected_with_other_std_exception", st.other_exc);
     R.count("evaluations", st.total);
 }
@@ -333,6 +374,41 @@ template <class A> static void enum_foreign_bytes(const std::string& seed, int m
     } else {
         size_t at[2] = {0, seed.size() - 2};
         for (size_t p : at) for (int x = 0; x < 256; ++x) for (int y = 0; y < 256; ++y) { std::string t = seed; t[p] = (char)x; t[p + 1] = (char)y; check_string<A>(t, st); }
+    }
+}
+
+// structured IPv6 texts: z zero groups hidden by "::" (z = 0: no "::") at EVERY position, the remaining 8 - z groups written with
+// every assignment of tokens of 1..4 digits with / without leading zeros and mixed case; tail = 1: the last two groups as dotted quad.
+// The first hex group's token is fixed (unit split).
+static void v6s_tokens(bool thorough, std::vector<std::string>& t) {
+    const char* all[] = {"b", "0c", "00d", "f0E1", "1a2", "000e"};
+    size_t n = thorough ? 6 : 4;
+    t.assign(all, all + n);
+}
+static void enum_v6_structured(int z, int tail, int first, const std::vector<std::string>& tok, StrStats& st) {
+    int g = 8 - z - 2 * tail;                 // hex groups written
+    if (g < 0 || (g == 0 && first != 0)) return;
+    std::vector<int> idx((size_t)g, 0);
+    if (g) idx[0] = first;
+    const std::string quad = "1.22.133.4";
+    while (true) {
+        int np = z ? g + 1 : 1;
+        for (int p = 0; p < np; ++p) {        // "::" stands before hex group p (p == g: behind the last hex group)
+            std::string s;
+            int written = 0;
+            for (int k = 0; k < g; ++k) {
+                if (z && k == p) { s += "::"; written = 0; }
+                if (written) s += ':';
+                s += tok[idx[k]]; written = 1;
+            }
+            if (z && p == g) { s += "::"; written = 0; }
+            if (tail) { if (written) s += ':'; s += quad; }
+            check_string<IPv6Address>(s, st);
+        }
+        int k = g - 1;
+        while (k >= 1 && idx[k] + 1 == (int)tok.size()) { idx[k] = 0; --k; }
+        if (k < 1) break;
+        ++idx[k];
     }
 }
 
@@ -590,13 +666,13 @@ template <class A> static void check_postincrement(u128 first, u128 last) {
 }
 
 // ---------------------------------------------------------------- units
-enum Part { P_RT4 = 0, P_RT6, P_RTHW, P_ORD, P_STR_ENUM, P_STR_TOK, P_STR_EDIT, P_RNG_PREFIX, P_RNG_MASK, P_RNG_EXPLICIT, P_RNG_MISC, P_RNG_FULL, P_STR_BYTE };
-enum Fam { F_V4 = 0, F_V6, F_HW, F_HW2 };
+enum Part { P_RT4 = 0, P_RT6, P_RTHW, P_ORD, P_STR_ENUM, P_STR_TOK, P_STR_EDIT, P_RNG_PREFIX, P_RNG_MASK, P_RNG_EXPLICIT, P_RNG_MISC, P_RNG_FULL, P_STR_BYTE, P_STR_V6S };
+enum Fam { F_V4 = 0, F_V6, F_HW, F_HW2, F_HW3, F_HW8 };
 struct Unit { int part, fam; int i0, i1, i2; uint64_t lo, hi; std::string s0, s1; };
 
-static const char* fam_name(int f) { return f == F_V4 ? "v4" : f == F_V6 ? "v6" : f == F_HW ? "hw" : "hw2"; }
+static const char* fam_name(int f) { return f == F_V4 ? "v4" : f == F_V6 ? "v6" : f == F_HW ? "hw" : f == F_HW2 ? "hw2" : f == F_HW3 ? "hw3" : "hw8"; }
 static const char* part_name(int p) {
-    static const char* n[] = {"rt4", "rt6", "rthw", "ord", "str-enum", "str-tok", "str-edit", "rng-prefix", "rng-mask", "rng-explicit", "rng-misc", "rng-full", "str-byte"};
+    static const char* n[] = {"rt4", "rt6", "rthw", "ord", "str-enum", "str-tok", "str-edit", "rng-prefix", "rng-mask", "rng-explicit", "rng-misc", "rng-full", "str-byte", "str-v6-structured"};
     return n[p];
 }
 
@@ -658,6 +734,36 @@ static void str_configs(bool thorough, std::vector<EnumCfg>& en, std::vector<Tok
     }
     {
         TokCfg c; c.fam = F_HW; c.sep = "-"; c.K = 6; c.tok.push_back("00"); c.tok.push_back("ff"); c.tok.push_back("0");   // dash-separated notation is not the documented form
+        tk.push_back(c);
+    }
+    // ---- non-canonical but accepted texts: groups of different widths next to each other, digits chosen so that neighbouring
+    //      groups carry different non-zero nibbles, mixed case; the VALUE is compared with the reference parser
+    {
+        TokCfg c; c.fam = F_HW; c.sep = ":"; c.K = 7;            // every width combination (0,1,2 digits) over up to 7 groups
+        const char* t[] = {"", "a", "1", "1e", "F0", "0b", "C", "d7"};
+        size_t n = thorough ? 8 : (g_reduced ? 5 : 6);
+        for (size_t i = 0; i < n; ++i) c.tok.push_back(t[i]);
+        tk.push_back(c);
+    }
+    {
+        TokCfg c; c.fam = F_HW3; c.sep = ":"; c.K = 4;           // HWAddress<3>: full product: every group is "", one or two digits from {0,1,a,F}
+        const char* dg = "01aF";
+        c.tok.push_back("");
+        for (int i = 0; i < 4; ++i) c.tok.push_back(std::string(1, dg[i]));
+        for (int i = 0; i < 4; ++i) for (int j = 0; j < 4; ++j) { std::string x; x += dg[i]; x += dg[j]; c.tok.push_back(x); }
+        tk.push_back(c);
+    }
+    {
+        TokCfg c; c.fam = F_HW8; c.sep = ":"; c.K = 9;           // HWAddress<8>
+        const char* t[] = {"", "a", "1e", "C", "07"};
+        size_t n = thorough ? 5 : 4;
+        for (size_t i = 0; i < n; ++i) c.tok.push_back(t[i]);
+        tk.push_back(c);
+    }
+    {
+        TokCfg c; c.fam = F_V4; c.sep = "."; c.K = 4;            // every combination of octet widths 1..3, with leading zeros (not compared unless accepted)
+        const char* t[] = {"7", "42", "199", "255", "03", "007", "042", "0"};
+        for (size_t i = 0; i < sizeof t / sizeof t[0]; ++i) c.tok.push_back(t[i]);
         tk.push_back(c);
     }
     // ---- edits of valid seeds
@@ -724,6 +830,14 @@ static std::vector<Unit> build_units(bool thorough) {
         add(P_STR_BYTE, BYTE_SEEDS[c].fam, (int)c, 0, 0, 0, 0);
         if (thorough) add(P_STR_BYTE, BYTE_SEEDS[c].fam, (int)c, 1, 0, 0, 0);
         if ((BYTE_SEEDS[c].fam == F_HW || BYTE_SEEDS[c].fam == F_HW2) && strlen(BYTE_SEEDS[c].seed) >= 5 && (c == 11 || c == 15)) add(P_STR_BYTE, BYTE_SEEDS[c].fam, (int)c, 2, 0, 0, 0);
+    }
+    // structured IPv6 texts: one unit per ("::" width, tail, first token)
+    {
+        std::vector<std::string> tok; v6s_tokens(thorough, tok);
+        for (int tail = 0; tail < 2; ++tail) for (int z = 0; z <= 8 - 2 * tail; ++z) {
+            int g = 8 - z - 2 * tail;
+            for (size_t f = 0; f < (g ? tok.size() : 1); ++f) add(P_STR_V6S, F_V6, z, tail, (int)f, 0, 0);
+        }
     }
     // ranges: one unit per (family, prefix length)
     for (int p = 0; p <= 32; ++p) add(P_RNG_PREFIX, F_V4, p, 0, 0, 0, 0);
@@ -891,13 +1005,22 @@ static void run_unit(const Unit& un, bool thorough) {
         } else if (un.part == P_STR_TOK) {
             const TokCfg& c = tk[un.i0];
             if (c.fam == F_V4) enum_tokens<IPv4Address>(c.tok, c.sep, c.K, un.i1, st); else if (c.fam == F_V6) enum_tokens<IPv6Address>(c.tok, c.sep, c.K, un.i1, st);
-            else enum_tokens<HW6>(c.tok, c.sep, c.K, un.i1, st);
+            else if (c.fam == F_HW) enum_tokens<HW6>(c.tok, c.sep, c.K, un.i1, st);
+            else if (c.fam == F_HW3) enum_tokens<HW3>(c.tok, c.sep, c.K, un.i1, st); else enum_tokens<HW8>(c.tok, c.sep, c.K, un.i1, st);
         } else {
             const EditCfg& c = ed[un.i0];
             if (c.fam == F_V4) enum_edits<IPv4Address>(c.seed, c.alpha, c.depth, un.i1, c.slices, st); else if (c.fam == F_V6) enum_edits<IPv6Address>(c.seed, c.alpha, c.depth, un.i1, c.slices, st);
             else if (c.fam == F_HW) enum_edits<HW6>(c.seed, c.alpha, c.depth, un.i1, c.slices, st); else enum_edits<HW2>(c.seed, c.alpha, c.depth, un.i1, c.slices, st);
         }
         flush_stats(fam_name(un.fam), st);
+        break;
+    }
+    case P_STR_V6S: {
+        std::vector<std::string> tok; v6s_tokens(thorough, tok);
+        StrStats st;
+        enum_v6_structured(un.i0, un.i1, un.i2, tok, st);
+        flush_stats("v6", st);
+        R.count("structured_v6_strings", st.total); R.count("structured_v6_strings_accepted", st.acc);
         break;
     }
     case P_STR_BYTE: {
@@ -964,6 +1087,8 @@ static int replay(const std::string& kase) {
     else if (fam == "v6") replay_range<IPv6Address>(kv);
     else if (fam == "hw") replay_range<HW6>(kv);
     else if (fam == "hw2") replay_family<HW2>(kv);
+    else if (fam == "hw3") replay_family<HW3>(kv);
+    else if (fam == "hw8") replay_family<HW8>(kv);
     else { printf("cannot parse case\n"); return 2; }
     if (Mon::errors) { printf("sanitizer report: %s (%s)\n", Mon::first.c_str(), Mon::first_detail.c_str()); ++g_replay_hits; }
     if (g_replay_hits) { printf("violation reproduced (%d)\n", g_replay_hits); return 1; }
